@@ -319,6 +319,45 @@ theorem b32_roundtrip : ∀ (data : Bytes), b32Decode (b32Encode data) = some da
 /-- the secret a parsed URI reports (`get_secret`) decodes back to the key bytes it holds -/
 theorem C19_secret_roundtrip (t : Totp) : b32Decode (getSecret t) = some t.secret := b32_roundtrip t.secret
 
+/-! ### the validity period -/
+theorem window_arith (period time : Nat) (hp : 1 ≤ period) :
+    (∀ t', time ≤ t' → t' < time + (period - time % period) → t' / period = time / period)
+    ∧ (time + (period - time % period)) / period = time / period + 1 := by
+  have hr := Nat.mod_lt time (show 0 < period by omega)
+  have hdm := Nat.div_add_mod time period
+  have hmul : (time / period + 1) * period = period * (time / period) + period := by
+    rw [Nat.add_mul, Nat.one_mul, Nat.mul_comm]
+  have hmul0 : time / period * period = period * (time / period) := Nat.mul_comm _ _
+  constructor
+  · intro t' h1 h2
+    apply Nat.div_eq_of_lt_le
+    · rw [hmul0]; omega
+    · rw [hmul]; omega
+  · apply Nat.div_eq_of_lt_le
+    · rw [hmul]; omega
+    · rw [Nat.add_mul (time / period + 1) 1 period, hmul, Nat.one_mul]; omega
+
+/-- **the reported validity is exact**: the code returned at `time` is the code at every instant from `time`
+    up to, not including, `time + validity`, and `time + validity` is the first instant of the next time step -/
+theorem C19_validity_exact (H : Hmacs) (alg : Alg) (secret : Bytes) (period digits time : Nat)
+    (hp : 1 ≤ period) (hd' : digits < 20) :
+    (∀ t', time ≤ t' → t' < time + (valueAt H alg secret period digits time).2 →
+        (valueAt H alg secret period digits t').1 = (valueAt H alg secret period digits time).1)
+    ∧ (time + (valueAt H alg secret period digits time).2) / period = time / period + 1
+    ∧ (time + (valueAt H alg secret period digits time).2) % period = 0 := by
+  have h1 : period ≠ 0 := by omega
+  have h2 : ¬ (digits ≥ 20) := by omega
+  have e : (valueAt H alg secret period digits time).2 = period - time % period := by
+    simp only [valueAt, h1, h2, ↓reduceIte]
+  rw [e]
+  obtain ⟨a, b⟩ := window_arith period time hp
+  refine ⟨fun t' h3 h4 => window_const H alg secret period digits t' time (a t' h3 h4), b, ?_⟩
+  have hr := Nat.mod_lt time (show 0 < period by omega)
+  have hdm := Nat.div_add_mod time period
+  have : time + (period - time % period) = period * (time / period + 1) := by
+    rw [Nat.mul_add, Nat.mul_one]; omega
+  rw [this]; exact Nat.mul_mod_right _ _
+
 /-! ### writing a URI and reading it back -/
 
 /-- on a non-empty all-digit string `parseUInt` is the decimal value, bounded -/
